@@ -37,7 +37,8 @@ EXPLANATION = (
 )
 # obligations added during the build phase (seeding rounds, twins, mutation analysis)
 ADDED_IN_BUILD = " Also: arguments-untouched - no in-place list operation and no numpy out= write on the caller's lists / per-segment parameters; the segment loop is decided as a zip loop or as an index loop (generic or unrolled) with the same obligations (all segments visited, lengths equal the number of segments, bounds L[i], L[i+1])."
-EXPLANATION = EXPLANATION + ADDED_IN_BUILD
+ADDED_IN_ROUND_9 = ' Round 9 (F-32): GUARDS no-anomalies - an empty list of anomalies (anomaly-free data) with scalar / default parameters is generated on every path (n x 1 frame), not rejected and not answered with IndexError; the valid domain of GUARD-EXACT requires at least one mean.'
+EXPLANATION = EXPLANATION + ADDED_IN_BUILD + ADDED_IN_ROUND_9
 
 ASSUMPTIONS = [
     "Python's ast module and evaluation-order/argument-binding semantics as implemented in skverif/symex.py",
